@@ -314,4 +314,44 @@ Section Edwards.
   Proof.
     intros CP CQ. rewrite eadd_assoc by auto using onc_eneg. rewrite eadd_neg_r by exact CQ. apply eadd_id_r.
   Qed.
+
+  (* ---- the 4-torsion points (0, +-1), (+-i, 0) and the cross-product equality of RFC 9496 4.3.3 ---- *)
+  Definition tors4 (D : F * F) : Prop :=
+    D = (zero, one) \/ D = (zero, - one) \/ D = (i, zero) \/ D = (- i, zero).
+
+  Lemma sq_eq_cases a b : a * a = b * b -> a = b \/ a = - b.
+  Proof.
+    intro H. assert (E : (a - b) * (a + b) = zero) by nsatz.
+    destruct (mul_integral _ _ E) as [E1|E1]; [left|right]; nsatz.
+  Qed.
+
+  Theorem cross_eq_iff_tors4 x1 y1 x2 y2 : onc (x1, y1) -> onc (x2, y2) ->
+    (x1 * y2 = y1 * x2 \/ y1 * y2 = x1 * x2) <-> tors4 (eadd (x1, y1) (eneg (x2, y2))).
+  Proof.
+    intros C1 C2. pose proof (onc_eneg _ C2) as C2'.
+    pose proof (den_plus_nz _ _ _ _ C1 C2') as Dp. pose proof (den_minus_nz _ _ _ _ C1 C2') as Dm.
+    pose proof (eadd_onc _ _ C1 C2') as CD.
+    unfold eneg in *. unfold eadd in *. unfold tors4.
+    set (dx := (x1 * y2 + y1 * - x2) / (one + d * x1 * - x2 * y1 * y2)) in *.
+    set (dy := (y1 * y2 + x1 * - x2) / (one - d * x1 * - x2 * y1 * y2)) in *.
+    assert (Hx : dx * (one + d * x1 * - x2 * y1 * y2) = x1 * y2 + y1 * - x2) by (unfold dx; field; exact Dp).
+    assert (Hy : dy * (one - d * x1 * - x2 * y1 * y2) = y1 * y2 + x1 * - x2) by (unfold dy; field; exact Dm).
+    cbn in CD. split.
+    - intros [E|E].
+      + assert (Z : dx = zero).
+        { assert (T : dx * (one + d * x1 * - x2 * y1 * y2) = zero) by (rewrite Hx; nsatz).
+          destruct (mul_integral _ _ T); [assumption|contradiction]. }
+        rewrite Z in *. assert (S : dy * dy = one * one) by nsatz.
+        destruct (sq_eq_cases _ _ S) as [S1|S1]; rewrite S1; auto.
+      + assert (Z : dy = zero).
+        { assert (T : dy * (one - d * x1 * - x2 * y1 * y2) = zero) by (rewrite Hy; nsatz).
+          destruct (mul_integral _ _ T); [assumption|contradiction]. }
+        rewrite Z in *. assert (S : dx * dx = i * i) by nsatz.
+        destruct (sq_eq_cases _ _ S) as [S1|S1]; rewrite S1; auto.
+    - intros [E|[E|[E|E]]]; injection E as Ex Ey.
+      + left. rewrite Ex in Hx. nsatz.
+      + left. rewrite Ex in Hx. nsatz.
+      + right. rewrite Ey in Hy. nsatz.
+      + right. rewrite Ey in Hy. nsatz.
+  Qed.
 End Edwards.
